@@ -11,6 +11,16 @@ EXTRA = [
 ]
 
 
+# user modules that fail to lex / parse / run, or display while being imported: whatever they show goes through the channel
+MODULE_CASES = [
+    ('IMPORT MOD "bad.ap"\nDISPLAY(1)\n', {"bad.ap": "EXPORT PROCEDURE f(x) {\nRETURN x * * 2\n}\n"}),
+    ('IMPORT MOD "bad.ap"\nDISPLAY(1)\n', {"bad.ap": 'x <- "unterminated\n'}),
+    ('DISPLAY("main")\nIMPORT MOD "boom.ap"\nDISPLAY(1)\n', {"boom.ap": 'DISPLAY("in module")\nDISPLAY(1 / 0)\n'}),
+    ('IMPORT MOD "talk.ap"\nDISPLAY(say(2))\n', {"talk.ap": 'DISPLAY("loading")\nEXPORT PROCEDURE say(n) {\nDISPLAY("say")\nRETURN n\n}\n'}),
+    ('IMPORT ["nope"] FROM MOD "talk.ap"\n', {"talk.ap": 'EXPORT PROCEDURE say(n) {\nRETURN n\n}\n'}),
+]
+
+
 class PROP(c10.PROP):
     id = "C18"
     mismatch_is_failure = False
@@ -30,7 +40,7 @@ class PROP(c10.PROP):
             "standard output. non-trivial = distinct program that displays something")
 
     def corpus(self):
-        return super().corpus() + [Case(s, kind="corpus") for s in EXTRA]
+        return super().corpus() + [Case(s, kind="corpus") for s in EXTRA] + [Case(s, mods=m, kind="corpus") for s, m in MODULE_CASES]
 
     def oracle(self, case, impl):
         w = R.crash_oracle(impl)
